@@ -162,7 +162,16 @@ def native_run(case, release=False):
             if isinstance(v, (str, int)):
                 f.write('%s=%s\n' % (k, v))
     env = common.env_offline({'VERIF_CASE': cpath, 'CARGO_TARGET_DIR': os.path.join(_scratch(), 'replay-target')})
-    cmd = ['cargo', 'test', '--offline', '--lib', 'verif_replay', '--quiet']
+    test_name = 'verif_replay'
+    if case.get('entry') == 'rust_test':
+        with open(os.path.join(dst, 'src', 'dns', 'verif_case.rs'), 'w') as f:
+            f.write(case['code'])
+        modrs = os.path.join(dst, 'src', 'dns', 'mod.rs')
+        if 'mod verif_case;' not in open(modrs).read():
+            with open(modrs, 'a') as f:
+                f.write('\n#[cfg(test)]\n#[allow(dead_code, unused_imports)]\nmod verif_case;\n')
+        test_name = 'verif_case'
+    cmd = ['cargo', 'test', '--offline', '--lib', test_name, '--quiet']
     if release:
         cmd.append('--release')
     cmd += ['--', '--nocapture', '--test-threads', '1']
@@ -204,6 +213,8 @@ def matches_expectation(r, exp):
     for k, v in exp.get('not_equals', {}).items():
         if r.get(k) == v:
             return False
+    if exp.get('any_failure'):
+        return r.get('outcome') == 'panic' or bool(r.get('fails'))
     if 'differs' in exp:
         return any(r.get(k) != v for k, v in exp['differs'].items())
     return True
